@@ -418,6 +418,19 @@ func (m *Model) eval(n *N, env *MEnv) res {
 				for j, k := range r.v.K {
 					add(k, r.v.V[j])
 				}
+			} else if len(n.Keys) > i && n.Keys[i] != nil {
+				// computed key (slots in the key only: generator invariant)
+				if HasSlot(e) {
+					return m.giveUp("object pair with slots on both sides")
+				}
+				k := m.ev("obj/key", n.Keys[i], env)
+				if k.c == cRaise {
+					return k
+				}
+				if k.v.T != "str" {
+					return m.giveUp("non-string computed key")
+				}
+				add(k.v.S, r.v)
 			} else {
 				add(n.Names[i], r.v)
 			}
